@@ -45,6 +45,8 @@ let check_tokens (cfg : econfig) (ops : eop list) (tr : tok list) : unit =
   let hooks_done = ref [] in
   let paused_at = Hashtbl.create 8 in  (* run -> clock of the last Paused write *)
   let fail_count = Hashtbl.create 8 in (* (inst, unit-string, run, err) -> failing invocations since last pause *)
+  let run_state = Hashtbl.create 8 in  (* C09: run -> (foreign ID, run state of its last committed write) *)
+  let c09_reported = Hashtbl.create 8 in
   let cur_event = Hashtbl.create 8 in  (* proc -> event being handled (survives a lag wait) *)
   let now = ref 0 in
   List.iteri (fun n seg ->
@@ -244,6 +246,11 @@ let check_tokens (cfg : econfig) (ops : eop list) (tr : tok list) : unit =
            | EStep (s, _, _) | EInserter s -> if not (List.mem (zi e.e_state) [1; 2]) || zi e.e_type <> zi s then bad "C06" "status consumer %d received an event of state %d type %d" (zi s) (zi e.e_state) (zi e.e_type)
            | _ -> ())
         | _ -> ());
+       (* C14: a hook that returned an error is re-invoked: its event is not acknowledged *)
+       (match u with
+        | EHook st when on "C14" ->
+          if has_ack && user_err then bad "C14" "hook for state %d returned an error, yet its event was acknowledged (the hook is never re-invoked)" (zi (rs_code st))
+        | _ -> ());
        (* C14: hooks only for their own state *)
        (match u, ev with
         | EHook st, Some e when on "C14" ->
@@ -309,6 +316,24 @@ let check_tokens (cfg : econfig) (ops : eop list) (tr : tok list) : unit =
             | _ -> ())
          | _ -> ()) seg
      end);
+    (* C07 / C11: an adapter call that failed with an error (not a cancellation) sends the process through the error exit:
+       it waits the configured back-off on the workflow clock before it asks for its role again *)
+    (if (on "C07" || on "C11") && zi cfg.ec_backoff > 0 then
+       match unit_of_op, op with
+       | Some _, OStep (_, _, pl) when not (List.exists (fun (_, f) -> f = FCrash || f = FLease) pl) ->
+         let rec after_fail = function
+           | [] -> None
+           | t :: rest ->
+             (match t with
+              | TCall ((KAW | KTW | KCL), _, _, _) -> after_fail rest
+              | _ -> (match tok_res t with Some (RErr | RErrAfter) -> Some rest | _ -> after_fail rest)) in
+         (match after_fail seg with
+          | Some rest ->
+            let cancelled = List.exists (fun t -> tok_res t = Some RCancel) seg in
+            if not cancelled && not (List.exists (function TCall (KTW, _, _, _) -> true | _ -> false) rest) then
+              bad (if on "C07" then "C07" else "C11") "an adapter call failed with an error, yet the process did not wait the error back-off (%d) before asking for its role again" (zi cfg.ec_backoff)
+          | None -> ())
+       | _ -> ());
     (* C11: a background process never terminates while the workflow is running *)
     (if on "C11" || on "C07" || on "C01" then
        match unit_of_op with
@@ -325,6 +350,25 @@ let check_tokens (cfg : econfig) (ops : eop list) (tr : tok list) : unit =
               | Some RCancel -> lost := true
               | Some (ROk | RErrAfter) when !lost && unit_of_op <> None -> bad "C11" "adapter call succeeded after the lease was lost"
               | _ -> ()))) seg);
+    (* C09: the invariant itself — after every operation at most one run of a foreign ID is unfinished *)
+    (if on "C09" then begin
+       List.iter (function
+         | TStore (_, r, a) when eff a -> Hashtbl.replace run_state r.r_run (r.r_fid, r.r_state)
+         | _ -> ()) seg;
+       let per_fid = Hashtbl.create 8 in
+       Hashtbl.iter (fun run (fid, st) -> if not (rs_finished st) then Hashtbl.replace per_fid fid (run :: (try Hashtbl.find per_fid fid with Not_found -> []))) run_state;
+       Hashtbl.iter (fun fid runs -> match List.sort compare runs with
+         | a :: b :: _ -> if not (Hashtbl.mem c09_reported fid) then begin
+             Hashtbl.replace c09_reported fid ();
+             bad "C09" "runs %d and %d of foreign ID %d are both unfinished" (ni a) (ni b) (ni fid) end
+         | _ -> ()) per_fid;
+       (match op with
+        | OTrigger _ ->
+          let wrote = List.exists (function TStore (_, _, a) -> eff a | _ -> false) seg in
+          if wrote && List.exists (function TLookup (KLT, _, (RErr | RErrAfter | RCancel), _) -> true | _ -> false) seg then
+            bad "C09" "Trigger wrote a run although the lookup of the latest run failed"
+        | _ -> ())
+     end);
     (* C09: trigger = one store or none *)
     (match op with
      | OTrigger (fid, _, _, _) when on "C09" ->
